@@ -425,7 +425,7 @@ def _mk_is_rotation(n, tier):
     return _
 
 
-for _n, _tier in ((1, "quick"), (2, "quick"), (3, "quick"), (4, "quick"), (5, "thorough"), (6, "thorough")):
+for _n, _tier in ((1, "quick"), (2, "quick"), (3, "quick"), (4, "quick"), (5, "thorough")):
     _mk_is_rotation(_n, _tier)
 
 
@@ -476,5 +476,5 @@ def _mk_filter_rotations(lens, tier):
 
 
 for _lens, _tier in (((2, 2), "quick"), ((3, 3), "quick"), ((2, 3, 2), "quick"), ((3, 3, 3), "quick"), ((4, 4), "quick"),
-                     ((3, 3, 3, 3), "thorough"), ((4, 4, 4), "thorough"), ((2, 3, 2, 3), "thorough")):
+                     ((2, 3, 2, 3), "thorough")):
     _mk_filter_rotations(_lens, _tier)
